@@ -26,7 +26,13 @@ ArgsFor(m) ==
                THEN {[i \in 1..n |-> IF i = 1 THEN p ELSE IF i = n THEN q ELSE Fill(i)] :
                        p \in Payloads, q \in {"x" \o LF \o "QUIT", Long, ""}}
                ELSE {}
-  IN One \cup Two
+      \* a poisoned first argument together with a text that has to be split (each harmless alone)
+      DirtyLong == IF m \in Splitting /\ n >= 2
+               THEN {[i \in 1..n |-> IF i = 1 THEN p ELSE IF i = n THEN q ELSE Fill(i)] :
+                       p \in {"x" \o LF \o "QUIT", "#c" \o CR \o LF \o "QUIT :y", "a" \o NUL \o "b" \o LF \o "z"},
+                       q \in {Long, Rep("ab, cd. ", 80)}}
+               ELSE {}
+  IN One \cup Two \cup DirtyLong
 CallsOf(m) == {[m |-> m, a |-> a, sl |-> IF m \in Splitting THEN sl ELSE 450] : a \in ArgsFor(m), sl \in SplitLens}
 Calls == UNION {CallsOf(m) : m \in Methods}
 
